@@ -29,7 +29,9 @@ Definition occ_bwd (pat : list Z) (lo : Z) (w : list Z) : list Z :=
   else map (fun q => lo + Z.of_nat (length w) - 1 - q) (spec_ends (rev pat) (rev w) 0 (length w)).
 
 Definition first_or (l : list Z) : Z := match l with [] => -1 | x :: _ => x end.
-Definition take_n (n : Z) (l : list Z) : list Z := if n <=? 0 then [] else firstn (Z.to_nat n) l.
+(* the first n elements (all of them when n exceeds the length: no conversion of a huge count to a unary number) *)
+Definition take_n (n : Z) (l : list Z) : list Z :=
+  if n <=? 0 then [] else if Z.of_nat (length l) <=? n then l else firstn (Z.to_nat n) l.
 
 (* the text of a view: its first position and its digits; endless views are cut after `cap` digits (the cases
    generated for them stop the search before that) *)
